@@ -364,19 +364,8 @@ def run(res, tier):
         res.ob('SHAPE', 'lang/python3/message.py', 'Python codec for %s has the documented shape %s' % (name, DOC[name]), ok, how=how, function='Python:' + name, key='SHAPE|python|%s' % name,
                message='message.py handles %s as [%s], the documented wire format is %s' % (name, how, DOC[name]))
     # the table MessageField::Unflatten uses to choose between the single-item and the array reader gives the documented item width for every fixed-size type (and 0 for the others)
-    gfs = [f_ for f_ in fx.funcs.values() if f_.full and f_.q.endswith('GetFlattenedSizeForFixedSizeType')]
-    if not gfs:
-        raise AnalysisBroken('SHAPE: GetFlattenedSizeForFixedSizeType not found')
-    for name in sorted(DOC):
-        try:
-            ev_ = E.Evaluator(fx, consts={gfs[0].params[0].get('n') or 'typeCode': tcs[name]})
-            val = E.pconst(ev_.fn_value(gfs[0], {gfs[0].params[0]['d']: E.P(tcs[name])}))
-        except E.Outside as e:
-            raise AnalysisBroken('SHAPE: GetFlattenedSizeForFixedSizeType(%s) outside the fragment: %s' % (name, e))
-        want = DOC[name][1] if DOC[name][0] == 'fixed' else 0
-        res.ob('SHAPE', gfs[0].where(), 'GetFlattenedSizeForFixedSizeType(%s) == %d' % (name, want), val == want, how=str(val), function='C++:sizetable:' + name, key='SHAPE|cpp-sizetable|%s' % name,
-               message='GetFlattenedSizeForFixedSizeType(%s) returns %s, the documented item width is %s: MessageField::Unflatten divides the payload length by this value to choose the single-item or the '
-                       'array reader, so fields with certain item counts are mis-parsed (valid Messages from every producer are rejected)' % (name, val, want))
+    # the item size the C++ reader divides the payload length by, evaluated per type code at its use site (whatever helper provides it)
+    C01.item_size_at_use_rule(res, fx, tcs)
     # ------------------------------------------------------------------------------------------- reader accepts what the writers produce
     C01.exact_fit_rule(res, fx)
     C01.min_entry_rule(res, fx)
